@@ -28,7 +28,9 @@ CONSTANTS
   QueryOpen,     \* FALSE: queries cannot reach the plugin    (TRUE: they stage changes, before bfdbd89)
   QueryTouches,  \* FALSE: a query returns before it touches the process-wide precompile object (run() at HEAD)
                  \* TRUE:  it first stores ITS state copy and caller there (SetState/SetCaller above the NoAdminOP check)
-  TallyOnly      \* TRUE: only Check actions (exhaustive signature-list configurations)
+  TallyOnly,     \* TRUE: only Check actions (exhaustive signature-list configurations)
+  Routes         \* how a request reaches the precompile: "contract" (the genesis Admin contract), "direct" (a transaction to
+                 \* 0xfe itself), "static" (a contract of the submitter's making STATICCALLs 0xfe with a payload of its choosing)
 
 Absent == -1
 
@@ -81,7 +83,7 @@ Authorised(v, sl) == 3 * DistinctPower(v, sl) > 2 * Total(v)
 Result(v, nn, b, sl, route, snd) ==
   LET from == IF route = "contract" THEN snd ELSE b.addr
       seen == nn[from] + (IF from = snd THEN 1 ELSE 0)
-  IN IF route = "direct" /\ ~DirectOpen THEN "rejRoute"
+  IN IF route # "contract" /\ ~DirectOpen THEN "rejRoute"
      ELSE IF ~Major23(v, sl) THEN "rejAuth"
      ELSE IF b.ct # "ok" THEN "rejType"
      ELSE IF from # b.addr THEN "rejFrom"
@@ -199,7 +201,7 @@ Results == {"ok", "noop", "rejRoute", "rejAuth", "rejType", "rejFrom", "rejNonce
 
 \* Next enumerates the reply so that every edge of TLC's state graph is labelled Tx(b, sl, route, snd, res).
 Next ==
-  \/ \E b \in Bodies, sl \in SigLists, route \in {"contract", "direct"}, snd \in Accounts, res \in Results :
+  \/ \E b \in Bodies, sl \in SigLists, route \in Routes, snd \in Accounts, res \in Results :
         Tx(b, sl, route, snd, res)
   \/ \E snd \in Accounts : Resend(snd)
   \/ CloseBlock
@@ -211,7 +213,7 @@ Next ==
 \* The same relation with the reply computed instead of guessed (11 times fewer evaluations); TLC cannot label
 \* these steps, the action and its arguments are read from `last`.  Used for the large configurations.
 NextFast ==
-  \/ \E b \in Bodies, sl \in SigLists, route \in {"contract", "direct"}, snd \in Accounts :
+  \/ \E b \in Bodies, sl \in SigLists, route \in Routes, snd \in Accounts :
         Tx(b, sl, route, snd, Result(vals, nonce, b, sl, route, snd))
   \/ \E snd \in Accounts : Resend(snd)
   \/ CloseBlock
